@@ -20,9 +20,14 @@ if [ "$REPO" != "/repo" ]; then
   SUFFIX="-alt"
 fi
 
-build() { # $1 = race|plain
+build() { # $1 = race|plain, $2 = cover (optional): statement coverage of the poly packages, thorough tier
   local out=".build/vcheck$SUFFIX" flags=()
   if [ "$1" = race ]; then out=".build/vcheck-race$SUFFIX"; flags=(-race); fi
+  if [ "${2:-}" = cover ]; then
+    local pk
+    pk=$(go list "${MODARGS[@]}" github.com/TimothyStiles/poly/... 2>/dev/null | grep -v -e '/cmd/poly$' -e '/poly/io$' | tr '\n' ',' | sed 's/,$//')
+    if [ -n "$pk" ]; then out="$out-cover"; flags+=(-cover "-coverpkg=./...,$pk"); fi
+  fi
   if go build "${MODARGS[@]}" -tags verif "${flags[@]}" -o "$out" ./cmd/vcheck 2> .build/build-$1.err; then
     echo "$out"; return 0
   fi
@@ -48,7 +53,9 @@ case "${1:-}" in
   C[0-9]*)
     id="$1"; tier="${2:-quick}"
     kind=plain; case "$RACE_PROPS" in *" $id "*) kind=race;; esac
-    bin=$(build $kind) || { echo "INCONCLUSIVE property=$id reason=build of poly or harness failed"; exit 2; }
+    cover=""; if [ "$tier" = thorough ] && [ -z "${VERIF_NOCOVER:-}" ]; then cover=cover; fi
+    bin=$(build $kind $cover) || { echo "INCONCLUSIVE property=$id reason=build of poly or harness failed"; exit 2; }
+    if [ -n "$cover" ]; then export VERIF_COVER=1 GOCOVERDIR="$PWD/.work/cov-parent-$$"; mkdir -p "$GOCOVERDIR"; "$bin" check "$id" "$tier"; rc=$?; rm -rf "$GOCOVERDIR"; exit $rc; fi
     exec "$bin" check "$id" "$tier" ;;
   *)
     echo "usage: ./run.sh <ID> <quick|thorough> | replay <path> | build"; exit 2 ;;
